@@ -530,83 +530,117 @@ fn oracle_must_reject(what: &str, accepted: bool) {
 pub fn c02(ctx: &mut Ctx) -> Search {
     let t = ctx.thorough;
     let lens: Vec<usize> = if t { vec![0, 1, 15, 16, 17, 33, 64, 80] } else { vec![0, 1, 17, 64] };
-    for len in lens {
-        let m = ctx.rng.bytes(len);
-        let (k, n) = (ctx.rng.arr::<32>(), ctx.rng.arr::<24>());
+    // Phase 0: the untampered input and every one-bit corruption, for all
+    // message lengths.  Phase 1: truncations and extensions (same data).
+    // Bit corruptions come first so that a length-handling defect (C04
+    // territory) cannot hide an authentication defect.
+    let rng0 = ctx.rng.clone();
+    for phase in 0..2 {
+        ctx.rng = rng0.clone();
+        let bits = phase == 0;
+        let cmut = |c: &[u8]| -> Vec<Vec<u8>> {
+            if bits {
+                mutations(c, t)
+            } else {
+                length_mutations(c)
+            }
+        };
+        let kmut = |k: &[u8]| -> Vec<Vec<u8>> {
+            if bits {
+                mutations(k, t)
+            } else {
+                Vec::new()
+            }
+        };
+        for len in lens.iter().copied() {
+            let m = ctx.rng.bytes(len);
+            let (k, n) = (ctx.rng.arr::<32>(), ctx.rng.arr::<24>());
 
-        // ---- secretbox
-        let c = so::secretbox_easy(&m, &n, &k);
-        let base = |k: &[u8], n: &[u8], c: &[u8]| Input::new().b("k", k).b("n", n).b("c", c);
-        ctx.run("secretbox_open", base(&k, &n, &c))?;
-        for c2 in mutations(&c, t).into_iter().chain(length_mutations(&c)) {
-            oracle_must_reject("secretbox ciphertext", so::secretbox_open_easy(&c2, &n, &k).is_some());
-            ctx.run("secretbox_open", base(&k, &n, &c2))?;
-        }
-        for n2 in mutations(&n, t) {
-            ctx.run("secretbox_open", base(&k, &n2, &c))?;
-        }
-        for k2 in mutations(&k, t) {
-            ctx.run("secretbox_open", base(&k2, &n, &c))?;
-        }
+            // ---- secretbox
+            let c = so::secretbox_easy(&m, &n, &k);
+            let base = |k: &[u8], n: &[u8], c: &[u8]| Input::new().b("k", k).b("n", n).b("c", c);
+            if bits {
+                ctx.run("secretbox_open", base(&k, &n, &c))?;
+            }
+            for c2 in cmut(&c) {
+                oracle_must_reject("secretbox ciphertext", so::secretbox_open_easy(&c2, &n, &k).is_some());
+                ctx.run("secretbox_open", base(&k, &n, &c2))?;
+            }
+            for n2 in kmut(&n) {
+                ctx.run("secretbox_open", base(&k, &n2, &c))?;
+            }
+            for k2 in kmut(&k) {
+                ctx.run("secretbox_open", base(&k2, &n, &c))?;
+            }
 
-        // ---- box (sender a, recipient b)
-        let (ska, skb) = (ctx.rng.arr::<32>(), ctx.rng.arr::<32>());
-        let (pka, pkb) = (so::scalarmult_base(&ska), so::scalarmult_base(&skb));
-        let c = so::box_easy(&m, &n, &pkb, &ska).expect("honest keys");
-        let base = |pk: &[u8], sk: &[u8], n: &[u8], c: &[u8]| Input::new().b("pk", pk).b("sk", sk).b("n", n).b("c", c);
-        ctx.run("box_open", base(&pka, &skb, &n, &c))?;
-        for c2 in mutations(&c, t).into_iter().chain(length_mutations(&c)) {
-            ctx.run("box_open", base(&pka, &skb, &n, &c2))?;
-        }
-        for n2 in mutations(&n, t) {
-            ctx.run("box_open", base(&pka, &skb, &n2, &c))?;
-        }
-        // key corruptions: the verdict is whatever libsodium says (bits that
-        // clamping ignores do not change the key)
-        for pk2 in mutations(&pka, t) {
-            ctx.run("box_open", base(&pk2, &skb, &n, &c))?;
-        }
-        for sk2 in mutations(&skb, t) {
-            ctx.run("box_open", base(&pka, &sk2, &n, &c))?;
-        }
+            // ---- box (sender a, recipient b)
+            let (ska, skb) = (ctx.rng.arr::<32>(), ctx.rng.arr::<32>());
+            let (pka, pkb) = (so::scalarmult_base(&ska), so::scalarmult_base(&skb));
+            let c = so::box_easy(&m, &n, &pkb, &ska).expect("honest keys");
+            let base =
+                |pk: &[u8], sk: &[u8], n: &[u8], c: &[u8]| Input::new().b("pk", pk).b("sk", sk).b("n", n).b("c", c);
+            if bits {
+                ctx.run("box_open", base(&pka, &skb, &n, &c))?;
+            }
+            for c2 in cmut(&c) {
+                oracle_must_reject("box ciphertext", so::box_open_easy(&c2, &n, &pka, &skb).is_some());
+                ctx.run("box_open", base(&pka, &skb, &n, &c2))?;
+            }
+            for n2 in kmut(&n) {
+                ctx.run("box_open", base(&pka, &skb, &n2, &c))?;
+            }
+            // key corruptions: the verdict is whatever libsodium says (bits
+            // that clamping ignores do not change the key)
+            for pk2 in kmut(&pka) {
+                ctx.run("box_open", base(&pk2, &skb, &n, &c))?;
+            }
+            for sk2 in kmut(&skb) {
+                ctx.run("box_open", base(&pka, &sk2, &n, &c))?;
+            }
 
-        // ---- sealed box
-        let c = so::box_seal(&m, &pkb);
-        let base = |pk: &[u8], sk: &[u8], c: &[u8]| Input::new().b("pk", pk).b("sk", sk).b("c", c);
-        ctx.run("seal_open", base(&pkb, &skb, &c))?;
-        for c2 in mutations(&c, t).into_iter().chain(length_mutations(&c)) {
-            ctx.run("seal_open", base(&pkb, &skb, &c2))?;
-        }
-        for pk2 in mutations(&pkb, t) {
-            ctx.run("seal_open", base(&pk2, &skb, &c))?;
-        }
-        for sk2 in mutations(&skb, t) {
-            ctx.run("seal_open", base(&pkb, &sk2, &c))?;
-        }
+            // ---- sealed box (ephemeral key is the first 32 bytes of c)
+            let c = so::box_seal(&m, &pkb);
+            let base = |pk: &[u8], sk: &[u8], c: &[u8]| Input::new().b("pk", pk).b("sk", sk).b("c", c);
+            if bits {
+                ctx.run("seal_open", base(&pkb, &skb, &c))?;
+            }
+            for c2 in cmut(&c) {
+                oracle_must_reject("sealed box", so::box_seal_open(&c2, &pkb, &skb).is_some());
+                ctx.run("seal_open", base(&pkb, &skb, &c2))?;
+            }
+            for pk2 in kmut(&pkb) {
+                ctx.run("seal_open", base(&pk2, &skb, &c))?;
+            }
+            for sk2 in kmut(&skb) {
+                ctx.run("seal_open", base(&pkb, &sk2, &c))?;
+            }
 
-        // ---- secretstream, first message
-        for adlen in [0usize, 5, 16] {
-            let header = ctx.rng.arr::<24>();
-            let ad = ctx.rng.bytes(adlen);
-            let mut st = so::stream_init_pull(&header, &k);
-            let c = so::stream_push(&mut st, &m, Some(&ad), (len % 4) as u8);
-            let base = |k: &[u8], h: &[u8], c: &[u8], ad: &[u8]| {
-                Input::new().b("k", k).b("header", h).b("c", c).b("ad", ad)
-            };
-            ctx.run("stream_pull", base(&k, &header, &c, &ad))?;
-            for c2 in mutations(&c, t).into_iter().chain(length_mutations(&c)) {
+            // ---- secretstream, first message
+            for adlen in [0usize, 5, 16] {
+                let header = ctx.rng.arr::<24>();
+                let ad = ctx.rng.bytes(adlen);
                 let mut st = so::stream_init_pull(&header, &k);
-                oracle_must_reject("stream ciphertext", so::stream_pull(&mut st, &c2, Some(&ad)).is_some());
-                ctx.run("stream_pull", base(&k, &header, &c2, &ad))?;
-            }
-            for h2 in mutations(&header, t) {
-                ctx.run("stream_pull", base(&k, &h2, &c, &ad))?;
-            }
-            for ad2 in mutations(&ad, t).into_iter().chain(length_mutations(&ad)) {
-                ctx.run("stream_pull", base(&k, &header, &c, &ad2))?;
-            }
-            for k2 in mutations(&k, t) {
-                ctx.run("stream_pull", base(&k2, &header, &c, &ad))?;
+                let c = so::stream_push(&mut st, &m, Some(&ad), (len % 4) as u8);
+                let base = |k: &[u8], h: &[u8], c: &[u8], ad: &[u8]| {
+                    Input::new().b("k", k).b("header", h).b("c", c).b("ad", ad)
+                };
+                if bits {
+                    ctx.run("stream_pull", base(&k, &header, &c, &ad))?;
+                }
+                for c2 in cmut(&c) {
+                    let mut st = so::stream_init_pull(&header, &k);
+                    oracle_must_reject("stream ciphertext", so::stream_pull(&mut st, &c2, Some(&ad)).is_some());
+                    ctx.run("stream_pull", base(&k, &header, &c2, &ad))?;
+                }
+                for h2 in kmut(&header) {
+                    ctx.run("stream_pull", base(&k, &h2, &c, &ad))?;
+                }
+                for ad2 in cmut(&ad) {
+                    ctx.run("stream_pull", base(&k, &header, &c, &ad2))?;
+                }
+                for k2 in kmut(&k) {
+                    ctx.run("stream_pull", base(&k2, &header, &c, &ad))?;
+                }
             }
         }
     }
